@@ -119,7 +119,7 @@ for label in sorted(os.listdir(os.path.join(HERE, "seeded"))):
         prev = json.load(open(os.path.join(d, "meta.json")))
     except Exception:  # noqa
         prev = {}
-    for k in ("superseded", "breaks_property_on_current_tree", "detected_before_fix", "demo_with_change_on_current_tree"):
+    for k in ("superseded", "breaks_property_on_current_tree", "detected_before_fix", "demo_with_change_on_current_tree", "patch_note"):
         if k in prev:
             meta[k] = prev[k]
     json.dump(meta, open(os.path.join(d, "meta.json"), "w"), indent=1)
